@@ -23,7 +23,12 @@ type Tape struct {
 	Rec    map[string][]uint64
 	cur    map[string]int
 	rngs   map[string]*mrand.PCG
+	ctr    uint64
 }
+
+// NextCounter returns 1, 2, 3, … per tape (used to keep derived values distinct
+// even on zeroed replay tapes).
+func (t *Tape) NextCounter() uint64 { t.ctr++; return t.ctr }
 
 func SplitMix(x uint64) uint64 {
 	x += 0x9e3779b97f4a7c15
